@@ -258,7 +258,9 @@ func runC04(ctx *core.Ctx, pool *par.Pool) {
 	}
 	var total xstate.Stats
 	sweeps := 0
-	for _, run := range plan(cfgs, []seed{seedTail, seedFrag, seedWAL, seedFull}, depth, seedDepth) {
+	runs := plan(cfgs, []seed{seedTail, seedFrag, seedWAL, seedFull}, depth, seedDepth)
+	for _, run := range runs {
+		ctx.Share(ctx.Budget() / time.Duration(len(runs)))
 		cfg := run.Cfg
 		var all []*xstate.Node
 		st := xstate.BFS(ctx, pool, xstate.Spec{Cfg: cfg, Seed: run.Seed.Ops, Alphabet: allocAlphabet(true, !ctx.Quick()), MaxDepth: run.Depth,
@@ -270,6 +272,7 @@ func runC04(ctx *core.Ctx, pool *par.Pool) {
 		// allocation sweep in every state up to depth-1 (the last level is swept too if time allows)
 		xstate.RunProbes(ctx, pool, cfg, all, "sweep", nil, nil, func(n *xstate.Node, r *xstate.ProbeResult) { sweeps++ })
 	}
+	ctx.Unshare()
 	ctx.Set("allocation_sweeps", sweeps)
 	finishBFS(ctx, total, sweeps)
 }
@@ -288,7 +291,9 @@ func runC11(ctx *core.Ctx, pool *par.Pool) {
 	var total xstate.Stats
 	probes := 0
 	outcomes := map[string]int{}
-	for _, run := range plan(cfgs, []seed{seedTail, seedFrag, seedWAL, seedFull}, depth, seedDepth) {
+	runs := plan(cfgs, []seed{seedTail, seedFrag, seedWAL, seedFull}, depth, seedDepth)
+	for _, run := range runs {
+		ctx.Share(ctx.Budget() / time.Duration(len(runs)))
 		cfg := run.Cfg
 		var quiet []*xstate.Node
 		st := xstate.BFS(ctx, pool, xstate.Spec{Cfg: cfg, Seed: run.Seed.Ops, Alphabet: allocAlphabet(false, !ctx.Quick()), MaxDepth: run.Depth,
@@ -308,6 +313,7 @@ func runC11(ctx *core.Ctx, pool *par.Pool) {
 			outcomes[fmt.Sprintf("alloc=%v live=%v meta=%v", r.Info["allocatable"], r.Info["live"], r.Info["meta"])]++
 		})
 	}
+	ctx.Unshare()
 	ctx.Set("capacity_probes", probes)
 	ctx.Set("distinct_capacity_outcomes", len(outcomes))
 	finishBFS(ctx, total, probes)
@@ -326,7 +332,9 @@ func runC07(ctx *core.Ctx, pool *par.Pool) {
 	}
 	var total xstate.Stats
 	aborts, twinsRun := 0, 0
-	for _, run := range plan(cfgs, []seed{seedTail, seedFrag, seedWAL, seedFull}, depth, seedDepth) {
+	runs := plan(cfgs, []seed{seedTail, seedFrag, seedWAL, seedFull}, depth, seedDepth)
+	for _, run := range runs {
+		ctx.Share(ctx.Budget() / time.Duration(len(runs)))
 		cfg := run.Cfg
 		var twins []xstate.TwinTask
 		seenPair := map[string]bool{}
@@ -364,6 +372,7 @@ func runC07(ctx *core.Ctx, pool *par.Pool) {
 		ctx.Set("depth_"+run.name(), st.Depth)
 		twinsRun += xstate.RunTwins(ctx, pool, twins)
 	}
+	ctx.Unshare()
 	ctx.Set("aborted_transactions_compared", aborts)
 	ctx.Set("twin_continuations_compared", twinsRun)
 	finishBFS(ctx, total, twinsRun)
@@ -413,7 +422,9 @@ func runC10(ctx *core.Ctx, pool *par.Pool) {
 	}
 	var total xstate.Stats
 	reopens, twinsRun := 0, 0
-	for _, run := range plan(cfgs, []seed{seedTail, seedFrag, seedWAL, seedFull, seedWide}, depth, seedDepth) {
+	runs := plan(cfgs, []seed{seedTail, seedFrag, seedWAL, seedFull, seedWide}, depth, seedDepth)
+	for _, run := range runs {
+		ctx.Share(ctx.Budget() * 8 / 10 / time.Duration(len(runs)))
 		cfg := run.Cfg
 		var twins []xstate.TwinTask
 		st := xstate.BFS(ctx, pool, xstate.Spec{Cfg: cfg, Seed: run.Seed.Ops, Alphabet: allocAlphabet(true, !ctx.Quick()), MaxDepth: run.Depth,
@@ -443,6 +454,7 @@ func runC10(ctx *core.Ctx, pool *par.Pool) {
 		ctx.Set("depth_"+run.name(), st.Depth)
 		twinsRun += xstate.RunTwins(ctx, pool, twins)
 	}
+	ctx.Unshare()
 	// wide histories: every encoding form of the persisted structures
 	var wide []xstate.TwinTask
 	B, C, R := O{K: pagedrv.OBegin}, O{K: pagedrv.OCommit}, O{K: pagedrv.OReopen}
